@@ -123,8 +123,8 @@ def run(ctx):
         jobs = [("c11", ["--mode", "exhaustive", "--maxn", 4, "--part", i, "--parts", 16], "exh%02d.ndjson" % i)
                 for i in range(16)]
     njobs = len(jobs)
-    jobs += [("c11", ["--mode", "random", "--n", 220 if q else 6000], "random.ndjson"),
-             ("c11", ["--mode", "edits", "--n", 100 if q else 3000], "edits.ndjson")]
+    jobs += [("c11", ["--mode", "random", "--n", 500 if q else 6000], "random.ndjson"),
+             ("c11", ["--mode", "edits", "--n", 250 if q else 3000], "edits.ndjson")]
     paths = ctx.record_many(jobs, parallel=4 if q else 16)
     if q:
         shards = []
